@@ -27,26 +27,34 @@ PINNED_EXPECT = [('C12.R1', 'emd.cycles.get_cycle_vector', 'last boundary'),
 def run(ctx):
     ctx.trust('np.where(cond)[0] is strictly increasing with entries in [0, len(cond)-1]; np.diff of a length-N vector '
               'has N-1 entries; np.r_ concatenates scalars and vectors in order')
-    A = cyclevec.get(ctx, False, False)
-    rule_cover(ctx, 'C12.R1', A, 'return_good=False, mask=None')
-    rule_unfiltered(ctx, 'C12.R2', A)
-    rule_labelling(ctx, 'C12.R3', A, 'return_good=False')
-    rule_wrapfree(ctx, 'C12.R4', A)
+    try:
+        A = cyclevec.get(ctx, False, False)
+    except AnalysisError as err:
+        # no per-column segment loop on the all-cycles path: a vectorised labelling?  Decide the one natural form
+        # (labels = running count of wraps); anything else stays an analysis error
+        if 'no loop over the phase columns' in str(err) and rule_vectorised_labelling(ctx, 'C12.R1'):
+            return
+        raise
+    ctx.rule(rule_cover, 'C12.R1', A, 'return_good=False, mask=None')
+    ctx.rule(rule_unfiltered, 'C12.R2', A)
+    ctx.rule(rule_labelling, 'C12.R3', A, 'return_good=False')
+    ctx.rule(rule_wrapfree, 'C12.R4', A)
     # detection never fails: the filter applied to every segment when only good cycles are requested is the documented
     # total predicate (np.all over the differences is defined for a one-sample segment, a .min() over them is not),
     # and the phase is canonicalised by ensure_2d (a vector is one column; rows are never re-read as samples)
     from . import c13, c19
-    c13.rule_criteria(ctx, 'C12.R5')
-    c19.rule_shape_classes(ctx, 'C12.R6', names=('ensure_2d',))
-    c19.rule_layout_only(ctx, 'C12.R6', names=('ensure_2d',))
-    c19.rule_ensure_sites(ctx, 'C12.R6', only={cyclevec.GCV})
-    rule_canonical_inputs(ctx, 'C12.R6')
+    ctx.rule(c13.rule_criteria, 'C12.R5')
+    ctx.rule(c19.rule_shape_classes, 'C12.R6', names=('ensure_2d',))
+    ctx.rule(c19.rule_layout_only, 'C12.R6', names=('ensure_2d',))
+    ctx.rule(c19.rule_ensure_sites, 'C12.R6', only={cyclevec.GCV})
+    ctx.rule(rule_canonical_inputs, 'C12.R6')
+    ctx.rule(c19.rule_equal_dims_semantics, 'C12.R6')
     if ctx.tier == 'thorough':
         for rg, mk in ((True, False), (True, True), (False, True)):
             A2 = cyclevec.get(ctx, rg, mk)
             tag = 'return_good=%s, mask=%s' % (rg, 'given' if mk else None)
-            rule_cover(ctx, 'C12.R1', A2, tag)
-            rule_labelling(ctx, 'C12.R3', A2, tag)
+            ctx.rule(rule_cover, 'C12.R1', A2, tag)
+            ctx.rule(rule_labelling, 'C12.R3', A2, tag)
 
 
 def _segments(A):
@@ -395,3 +403,39 @@ def rule_canonical_inputs(ctx, rid):
     (ctx.passed if okdim else ctx.violation)(rid, fi, c, '' if okdim else
                                               'phase (one column per IMF) and mask (one column) are not compared on '
                                               'dim=0: a valid mask is rejected, or a short one accepted')
+
+
+def rule_vectorised_labelling(ctx, rid):
+    """All-cycles labelling written as `labels[1:] = cumsum(wraps, axis=0)`: every column is labelled by its own
+    running wrap count, which is right for a column with wraps - a column without any wrap must stay -1 (no cycle),
+    so the assignment needs a per-column restriction.  Returns True when a verdict was given."""
+    P = ctx.P
+    fi = P.func(cyclevec.GCV)
+    exits = [e for e in Evaluator(P).run(fi, context={'return_good': False, 'mask': None}) if e.kind == 'return']
+    c = 'return_good=False, mask=None: a column without wraps is labelled -1 throughout'
+    for e in exits:
+        v = e.value
+        sets = []
+        while v[0] == 'setitem':
+            sets.append((v[2], v[3]))
+            v = v[1]
+        cums = [(idx, val) for idx, val in sets if val[0] == 'call' and val[1] == 'numpy.cumsum'
+                and dict(val[3]).get('axis') == C(0)]
+        if not cums:
+            continue
+        idx, val = cums[0]
+        J = val[2][0]
+        whole = idx[0] == 'tuple' and len(idx[1]) == 2 and idx[1][1][0] == 'slice' \
+            and all(x == C(None) for x in idx[1][1][1:4])
+        # is any later store restricted to the wrap-free columns, or is the guard column-wise?
+        fixed = any(i2[0] == 'tuple' and len(i2[1]) == 2 and i2[1][1][0] != 'slice' and v2 == C(-1)
+                    for i2, v2 in sets)
+        glob = [cd for cd, tr, ln in e.state.conds if tr and cd[0] in ('meth', 'call')
+                and (cd[1] in ('any', 'numpy.any')) and 'axis' not in dict(cd[4] if cd[0] == 'meth' else cd[3])]
+        if whole and not fixed:
+            ctx.violation(rid, fi, c, 'the labels of every column are written at once (%s = cumsum of the wraps%s): a '
+                          'wrap-free column next to a column with wraps is labelled 0 instead of -1'
+                          % (show(idx)[:30], ', guarded by a test over all columns' if glob else ''),
+                          node=e.node, expected='-1 for every sample of a column without wraps')
+            return True
+    return False
